@@ -365,8 +365,11 @@ def int_values(rng, tier):
            "abc", "007", "0_7", "\x855\xa0", "\x1c5", "5\x1c", "\t\n\x0b\x0c\r5", "5\x00", "+", "-", "--5", "+-5", "1 2",
            "\u20035\u3000", "65535", "65536", "99999999999999999999", "-0", "0o7",
            0, 1, -3, 8080, 2 ** 70, -(2 ** 70), True, False, None, ["1"]]
-    out += ["9" * 4300, "9" * 4301, "0" * 4301, "-" + "9" * 4300, " " * 3 + "9" * 4300 + " ", "1_" * 2150 + "1",
-            "1_" * 4299 + "1", "1_" * 4300 + "1", "9" * 4299 + "_9", "9" * 4300 + "_9"]
+    # the 4300-digit limit of int() (slow in the extracted model: a few per run)
+    out += ["9" * 4300, "9" * 4301]
+    if tier != "quick":
+        out += ["0" * 4301, "-" + "9" * 4300, " " * 3 + "9" * 4300 + " ", "1_" * 2150 + "1",
+                "1_" * 4299 + "1", "1_" * 4300 + "1", "9" * 4299 + "_9", "9" * 4300 + "_9"]
     alpha = "0159_+- \t\xa0a"
     n = 300 if tier == "quick" else 5000
     for _ in range(n):
@@ -376,7 +379,9 @@ def int_values(rng, tier):
 
 def octal_values(rng, tier):
     out = ["600", "0o600", "0O7", "0o_7", "0o", "0o_", "0o7_", "777", " 600 ", "8", "78", "-7", "+7", "", "6_0", "6__0", "_6",
-           "0_17", "-0o17", "0b1", "0x7", "00", "0o0", "\xa0644\n", "7" * 5000, "0o" + "7" * 4400, 384, 0, None, True, ["7"]]
+           "0_17", "-0o17", "0b1", "0x7", "00", "0o0", "\xa0644\n", 384, 0, None, True, ["7"]]
+    if tier != "quick":
+        out += ["7" * 5000, "0o" + "7" * 4400]   # no digit limit for a power-of-two base
     alpha = "0178oO_+- \n"
     n = 300 if tier == "quick" else 5000
     for _ in range(n):
@@ -792,7 +797,7 @@ def group_values(R, truthy):
     per_option = 40 if tier == "quick" else 400
     for name, fn in A.Adjustments._params:
         c = castname[name]
-        pool = pools.get(c, [])
+        pool = [v for v in pools.get(c, []) if not (isinstance(v, str) and len(v) > 200)]
         if len(pool) > per_option:
             head = pool[: per_option // 2]
             pool = head + rng.sample(pool[per_option // 2:], per_option - len(head))
